@@ -2,8 +2,31 @@ package main
 
 import (
 	"context"
+	"encoding/binary"
 	"time"
+
+	"github.com/ozontech/seq-db/bytespool"
 )
+
+// dirtyPool leaves recycled buffers full of non-zero residue in the small size classes of the global bytes pool, as
+// earlier searches, rotations and meta blocks do in a running store: every 8-byte word reads as the int 1 (a valid
+// sorted position of any non-empty fraction).  Code that takes a pooled buffer must not assume it is zeroed.
+func dirtyPool() {
+	for k := 0; k < 9; k++ { // 256 B .. 64 KiB
+		var bufs []*bytespool.Buffer
+		for n := 0; n < 6; n++ {
+			b := bytespool.AcquireLen(256 << k)
+			b.B = b.B[:cap(b.B)]
+			for i := 0; i+8 <= len(b.B); i += 8 {
+				binary.LittleEndian.PutUint64(b.B[i:], 1)
+			}
+			bufs = append(bufs, b)
+		}
+		for _, b := range bufs {
+			bytespool.Release(b)
+		}
+	}
+}
 
 var ctxBg = context.Background()
 
